@@ -479,6 +479,7 @@ def Adm : E → Prop
   | .darrow a f => Adm a ∧ ∀ r ys, Impl.eval a = .ok (.set r) →
       mapAll (fun v => f.eval v) r.members = .ok ys → FinishAdm ys
   | .pow a => Adm a ∧ ∀ r, Impl.eval a = .ok (.set r) → PowerAdm r.members
+  | .relj names rows _ => LitAdm (.rel names rows)
 
 /-- whole programs: whenever the specification yields a value, the evaluator on representations yields
 a well-formed representation of exactly that value — operands produced by earlier operators included -/
@@ -717,5 +718,9 @@ theorem eval_refines (e : E) (h : Adm e) (v : V) (hs : Spec.eval e = .ok v) :
         rw [Rep.mem_den, hc] at this; cases this
       · have : v = .set (FS.powerset xs) := by cases hs; rfl
         rw [this, toV_set, d', d]
+  | relj names rows src =>
+    obtain ⟨w1, w2⟩ := litIV_spec (.rel names rows) h
+    have : v = (Lit.rel names rows).den := by simp only [Spec.eval] at hs; cases hs; rfl
+    exact ⟨Impl.litIV (.rel names rows), rfl, w1, by rw [w2, this]⟩
 
 end Arrai.C01
